@@ -5,6 +5,7 @@ Generic reductions done here (none knows an expected value): minimum/maximum ove
 exact rational arithmetic on the returned coordinates (even-odd ray casting, boundary counts as inside).
 """
 from fractions import Fraction
+import numpy as np
 from soundevent.geometry import buffer_geometry
 from vt.geom import build
 from vt.enc import limbs
@@ -23,7 +24,8 @@ SUB_F = 64.0                       # Hz per frequency sub-tick; MAX_FREQUENCY = 
 RULE = ("every pair of calls of the TLA+ enumeration (50 geometries of all nine kinds incl. shapes on the edges time 0, "
         "frequency 0 and MAX_FREQUENCY and events later than 5e6 s; time/frequency buffers 0, 1/2, 1, 2 ticks and beyond the domain "
         "(time buffers up to 1e8 s for the closed-form kinds: the time axis has no upper edge), paired with the next "
-        "larger setting; negative-buffer combinations) plus random geometries and buffers on a larger lattice; each probed on a "
+        "larger setting; negative-buffer combinations; the buffer arguments passed as Python int/float and as numpy float64/float32/"
+        "int64/uint8/16/32/64 scalars wherever the type holds the value) plus random geometries and buffers on a larger lattice; each probed on a "
         "grid of lattice points around the geometry; non-trivial = both buffers non-negative and not both zero")
 TRUSTED_BASE = ["checks/c11.py + vt/geom.py (build geometries and buffers on dyadic units, call buffer_geometry, min/max of the "
                 "output coordinates as limb numbers, exact rational point-in-polygon of the probe points on the output coordinates)"]
@@ -61,10 +63,24 @@ def _polygons(r):
     return [r.coordinates] if r.type == "Polygon" else list(r.coordinates)
 
 
-def _run(g, b, probes, st):
+_CAST = {"int": int, "float": float, "np.float64": np.float64, "np.float32": np.float32, "np.int64": np.int64,
+         "np.uint8": np.uint8, "np.uint16": np.uint16, "np.uint32": np.uint32, "np.uint64": np.uint64}
+
+
+def _typed(value, ty):
+    """the buffer `value` (an exact double) as a number of the type named in the case; the case may only name a type that
+    holds the value exactly (Buffer!Fits) -- anything else is an error of the generator, not an observation."""
+    x = _CAST[ty](value)
+    if type(x) is not _CAST[ty] or Fraction(float(x)) != Fraction(value) or (ty != "float" and not ty.startswith("np.float") and int(x) != value):
+        raise RuntimeError(f"{value!r} is not representable as {ty}")
+    return x
+
+
+def _run(g, b, tys, probes, st):
     blank = {"raised": "", "type": "", "coords": [], "bounds": [], "closed": False, "inside": []}
+    tb, fb = _typed(b[0] * st, tys[0]), _typed(b[1] * SUB_F, tys[1])
     try:
-        r = buffer_geometry(g, time_buffer=b[0] * st, freq_buffer=b[1] * SUB_F)
+        r = buffer_geometry(g, time_buffer=tb, freq_buffer=fb)
     except Exception as ex:                     # an observation, judged by the spec
         return dict(blank, raised=type(ex).__name__)
     out = dict(blank, type=str(r.type))
@@ -93,7 +109,8 @@ def execute(case):
     st = SUB_T[case["u"] - 1]
     g = build(case["g"], st, SUB_F)
     probes = [(p[0] * st, p[1] * SUB_F) for p in case["probes"]]
-    return {"r1": _run(g, case["b1"], probes, st), "r2": _run(g, case["b2"], probes, st)}
+    t1, t2 = case.get("t1", ["float", "float"]), case.get("t2", ["float", "float"])
+    return {"r1": _run(g, case["b1"], t1, probes, st), "r2": _run(g, case["b2"], t2, probes, st)}
 
 
 # ----------------------------------------------------------------------------- random cases on a larger lattice
@@ -184,6 +201,31 @@ def _rand_probes(rng, g):
     return uniq
 
 
+_SUB_PER_SEC = [2, 4, 16]
+_TYPES = list(_CAST)
+
+
+def _fits(ty, axis, v, u):
+    """generator-side copy of Buffer!Fits (chooses admissible inputs; not an oracle)."""
+    integral = axis == "f" or v % _SUB_PER_SEC[u - 1] == 0
+    units = v * 64 if axis == "f" else v // _SUB_PER_SEC[u - 1]
+    if ty in ("float", "np.float64"):
+        return True
+    if ty == "np.float32":
+        n = abs(v)
+        while n and n % 2 == 0:
+            n //= 2
+        return n < 2 ** 24
+    if ty in ("int", "np.int64"):
+        return integral
+    return v >= 0 and integral and units <= {"np.uint8": 255, "np.uint16": 65535}.get(ty, 2 ** 62)
+
+
+def _arg_types(rng, b, u):
+    ty = rng.choice(_TYPES)
+    return [ty if _fits(ty, ax, v, u) else "float" for ax, v in (("t", b[0]), ("f", b[1]))]
+
+
 def random_cases(rng, tier):
     n = 300 if tier == "quick" else 5000
     for _ in range(n):
@@ -202,8 +244,12 @@ def random_cases(rng, tier):
         else:                                            # a negative buffer somewhere
             b2 = [rng.choice([-1, tb]), rng.choice([-5, -1])]
         cap = 10 ** 9 if g["type"] in ("TimeStamp", "TimeInterval", "BoundingBox") else 10 ** 6
-        yield {"g": g, "b1": [tb, fb], "b2": [min(b2[0], cap), min(b2[1], 4 * FMAXS)],
-               "probes": _rand_probes(rng, g), "u": rng.randint(1, 3)}      # buffers stay below 2^20 sub-ticks (Buffer!SlackFor)
+        b1, b2, u = [tb, fb], [min(b2[0], cap), min(b2[1], 4 * FMAXS)], rng.randint(1, 3)
+        if rng.random() < 0.5:                           # buffers that are whole seconds, so that the integer types apply
+            b1[0] -= b1[0] % _SUB_PER_SEC[u - 1]
+            b2[0] -= b2[0] % _SUB_PER_SEC[u - 1] if b2[0] >= 0 else 0
+        yield {"g": g, "b1": b1, "b2": b2, "t1": _arg_types(rng, b1, u), "t2": _arg_types(rng, b2, u),
+               "probes": _rand_probes(rng, g), "u": u}      # buffers stay below 2^20 sub-ticks (Buffer!SlackFor)
 
 
 def finding_key(obs, clause):
